@@ -162,6 +162,24 @@ func pieceConstrained(e *flowEngine, fn *ssa.Function, v ssa.Value, idx int, dep
 	return true, fmt.Sprintf("returned to %d call site(s), each of which range-checks it", n)
 }
 
+// callerOrd: ordinal of the hint call among the calls of the same hint function in the package (source order), so
+// that two callers of one hint stay distinct without naming them.
+func callerOrd(hp hintPiece, all []hintPiece) string {
+	n := 0
+	seen := map[token.Pos]bool{}
+	for _, o := range all {
+		if o.label != hp.label || seen[o.call.Pos()] {
+			continue
+		}
+		seen[o.call.Pos()] = true
+		n++
+		if o.call.Pos() == hp.call.Pos() {
+			return fmt.Sprintf("call%d", n)
+		}
+	}
+	return "call?"
+}
+
 func RunEmuWidth(p *Prog, r *Report, e *flowEngine) {
 	pkgPath := modPath + "/std/math/emulated"
 	pieces := emulatedHintPieces(p, pkgPath)
@@ -177,7 +195,9 @@ func RunEmuWidth(p *Prog, r *Report, e *flowEngine) {
 	for _, hp := range pieces {
 		ok, fact := pieceConstrained(e, hp.fn, hp.val, 0, 0)
 		// whole results that are only sliced further are covered by their pieces
-		k := Abstract(FuncName(hp.fn)) + " | " + hp.label + " | " + hp.piece
+		// identity = hint function + piece; the calling function is reported in the detail only (renaming an
+		// unexported caller must not change the identity of a known finding)
+		k := "hint:" + hp.label + " | " + hp.piece + "@" + callerOrd(hp, pieces)
 		a := res[k]
 		if a == nil {
 			a = &agg{ok: true, pos: hp.val.Pos(), fn: hp.fn}
@@ -191,7 +211,7 @@ func RunEmuWidth(p *Prog, r *Report, e *flowEngine) {
 		if !ok {
 			a.ok = false
 		}
-		a.fact = hp.bound + ": " + fact
+		a.fact = "in " + funcBaseName(hp.fn) + ", " + hp.bound + ": " + fact
 	}
 	sort.Strings(keys)
 	for _, k := range keys {
